@@ -93,6 +93,8 @@ var affines = [][6]float64{
 	{0.8660254037844387, -0.5, 0.5, 0.8660254037844387, 0.1, -0.3},                          // rotation by 30 degrees
 	{1.7, 0.3333333333333333, -0.45, 0.9, 1234.5678, -77.7},                                 // shear + scale
 	{-0.7071067811865476, 0.7071067811865476, 0.7071067811865476, 0.7071067811865476, 0, 0}, // reflection + rotation (negative determinant)
+	{math.Ldexp(1, -20), 0, 0, math.Ldexp(1, -20), 0, 0},                                    // exact scaling by 2^-20: areas of about 1e-11
+	{math.Ldexp(1, 30), 0, 0, math.Ldexp(1, 30), 0, 0},                                      // exact scaling by 2^30: areas of about 1e19
 }
 
 func affPt(k int, x, y float64) (float64, float64) {
@@ -243,6 +245,7 @@ func runCase(c Case, cat []shp) {
 		want[i] *= affDet(c.Affine)
 	}
 	areaA, areaB := exact.Area(fa), exact.Area(fb)
+	unit := math.Abs(affDet(c.Affine)) // the area of a unit square under the map: all area tolerances are relative to it
 	// configuration class
 	class := "crossing"
 	bbDisjoint := func() bool {
@@ -283,12 +286,32 @@ func runCase(c Case, cat []shp) {
 		delete(cb, "Bounds")
 	}
 	_ = affDet
+	// An edge whose end points differ in x by a few ulps (an exactly vertical
+	// edge after rounding of the mapped coordinates) makes the external sweep
+	// (github.com/ctessum/polyclip-go) go wrong whatever the operation; such
+	// cases form one class of their own (see known_findings.json).
+	nearVertical := false
+	for _, mp := range []geom.MultiPolygon{ga, gb} {
+		for _, pg := range mp {
+			for _, ring := range pg {
+				for i := range ring {
+					p, q := ring[i], ring[(i+1)%len(ring)]
+					if dx, dy := math.Abs(q.X-p.X), math.Abs(q.Y-p.Y); dx != 0 && dx < 1e-12*dy {
+						nearVertical = true
+					}
+				}
+			}
+		}
+	}
 	for ta, a := range ca {
 		for tb, b := range cb {
 			for op := 0; op < 4; op++ {
 				atomic.AddInt64(&nOps, 1)
 				var res geom.Polygonal
 				sig := func(sym string) string {
+					if nearVertical && sym != "panic" {
+						return "external:polyclip-go|operand-edge-vertical-up-to-rounding|wrong-result"
+					}
 					return fmt.Sprintf("%s|%s,%s|%s|%s", opNames[op], ta, tb, class, sym)
 				}
 				det := func(extra string) map[string]interface{} {
@@ -300,7 +323,7 @@ func runCase(c Case, cat []shp) {
 				}
 				rr := resultRegion(res)
 				if len(rr) == 0 {
-					if want[op] > 1e-9 {
+					if want[op] > 1e-9*unit {
 						rep.Violation(sig("empty-result-but-true-area-positive"), det(""))
 					}
 					continue
@@ -318,7 +341,7 @@ func runCase(c Case, cat []shp) {
 					}
 				}
 				got := exact.Area(rr)
-				if math.Abs(got-want[op]) > 1e-9*math.Max(1, want[op]) {
+				if math.Abs(got-want[op]) > 1e-9*math.Max(unit, want[op]) {
 					rep.Violation(sig("area-differs"), det(fmt.Sprintf("region area of the result %.12g", got)))
 					continue
 				}
@@ -381,7 +404,7 @@ func runCase(c Case, cat []shp) {
 					}
 					got := exact.Area(resultRegion(res))
 					kept[op], keptArea[op] = res, got
-					if math.Abs(got-want[op]) > 1e-9*math.Max(1, want[op]) {
+					if math.Abs(got-want[op]) > 1e-9*math.Max(unit, want[op]) {
 						rep.Violation(sig("area-differs"), det(fmt.Sprintf("region area of the result %.12g", got)))
 					}
 				}
@@ -412,7 +435,7 @@ func main() {
 		return
 	}
 	rep = report.New("C01", tier, "model_checking")
-	rep.Rule = "E1: operand catalogue (9 (36) axis-aligned boxes, 2 triangles, L, C, pentagon, box with 1 and 2 holes, two disjoint boxes, box + box-with-hole, island inside a hole, box with a U-shaped hole) in both windings for A and B, B translated by every vector of a 4x4 (8x8) odd-integer grid + (0.37,0.41), every receiver/argument cast {Polygon, MultiPolygon, *Bounds} x {Intersection, Union, Difference, XOr}; a third of the pairs again with both operands cut from flat vertex buffers (same areas, buffers not written, earlier results intact after later operations); the catalogue pairs again under 3 affine maps with non-representable coefficients (rotation by 30 deg, shear+scale, reflection; areas scale by |det|, references on the integer pre-images); pairs not in general position (exact integer test) are skipped and counted. Oracle: even-odd membership of ~2400 lattice points with an exactly verified 0.05 margin must equal the boolean combination; region area of the result (slab decomposition) must equal the slab-decomposition area of the true region (rel 1e-9); rings closed for Polygon/MultiPolygon receivers; empty result only if the true area is 0. Non-trivial = operand pairs that cross or nest."
+	rep.Rule = "E1: operand catalogue (9 (36) axis-aligned boxes, 2 triangles, L, C, pentagon, box with 1 and 2 holes, two disjoint boxes, box + box-with-hole, island inside a hole, box with a U-shaped hole) in both windings for A and B, B translated by every vector of a 4x4 (8x8) odd-integer grid + (0.37,0.41), every receiver/argument cast {Polygon, MultiPolygon, *Bounds} x {Intersection, Union, Difference, XOr}; a third of the pairs again with both operands cut from flat vertex buffers (same areas, buffers not written, earlier results intact after later operations); the catalogue pairs again under 3 affine maps with non-representable coefficients (rotation by 30 deg, shear+scale, reflection) and 2 exact scalings (2^-20, 2^30; areas scale by |det|, references on the integer pre-images); pairs not in general position (exact integer test) are skipped and counted. Oracle: even-odd membership of ~2400 lattice points with an exactly verified 0.05 margin must equal the boolean combination; region area of the result (slab decomposition) must equal the slab-decomposition area of the true region (rel 1e-9); rings closed for Polygon/MultiPolygon receivers; empty result only if the true area is 0. Non-trivial = operand pairs that cross or nest."
 	cat := catalogue(tier)
 	offs := []int64{-7, -3, 1, 5}
 	if tier == "thorough" {
